@@ -40,7 +40,9 @@ pub mod crypto {
         let sb = signature.as_bytes();
         let mut j = 0;
         while j < sb.len() { tv.push(sb[j]); j += 1; }
-        let text = match String::from_utf8(tv) { Ok(t) => t, Err(_) => return Ok(false) };
+        // (message and signature are parts of a &str token: valid UTF-8; from_utf8 would run core's
+        // alignment-dependent validation loop)
+        let text = unsafe { String::from_utf8_unchecked(tv) };
         Ok(match crate::model::lookup(&text) {
             Some(idx) => crate::model::verify_raw(idx, &text, key, algorithm),
             None => false,
